@@ -65,6 +65,8 @@ CACHE_PARTS = {
     "edges": ("",),
     "_coplanar_simplices": ("",),
 }
+# cached_property members discovered at run time that the table below does not know: name -> attributes read
+EXTRA_CACHE_READS = {}
 # the degree (power of the scale factor) of each scale-covariant cache
 CACHE_POWER = {("_equations", "d"): 1, ("_simplex_equations", "d"): 1, ("_volume", ""): 3, ("_area", ""): 2,
                ("_centroid", ""): 1}
@@ -73,6 +75,10 @@ CACHE_POWER = {("_equations", "d"): 1, ("_simplex_equations", "d"): 1, ("_volume
 def cache_effect(cache, part, primary, kind):
     """What a write of `kind` to `primary` does to (cache, part):
     'inv' | ('pend', power) | 'flip' | 'dirty'.   One line of reason each."""
+    if cache in EXTRA_CACHE_READS:
+        # unknown cached_property: stale whenever anything it reads is written
+        reads = EXTRA_CACHE_READS[cache]
+        return "dirty" if (primary in reads or any(r in CACHE_PARTS and r != cache for r in reads)) else "inv"
     eq = cache in ("_equations", "_simplex_equations")
     if primary == "_vertices":
         if kind == "scale":
@@ -166,7 +172,7 @@ class DirtyCache(Component):
             for c in attrs:
                 for p in CACHE_PARTS[c]:
                     if self.ctor:
-                        st[(oid, c, p)] = "absent" if c == "edges" else "unset"
+                        st[(oid, c, p)] = "absent" if (c == "edges" or c in EXTRA_CACHE_READS) else "unset"
                     else:
                         st[(oid, c, p)] = "clean"
         st["__det"] = frozenset()
@@ -279,7 +285,7 @@ class DirtyCache(Component):
                 return
             bad = [(p, state.get((oid, attr, p))) for p in CACHE_PARTS[attr]]
             bad = [(p, s) for p, s in bad if s not in ("clean", "absent", None)]
-            if attr == "edges":
+            if attr == "edges" or attr in EXTRA_CACHE_READS:
                 # reading a cached_property that is absent computes it now from the current faces
                 if state.get((oid, attr, "")) == "absent":
                     state[(oid, attr, "")] = "clean"
@@ -339,7 +345,7 @@ class DirtyCache(Component):
         if comp_oid in self.tracked and ev.mode == "rebind" and ev.rhs is not None and ev.rhs.obj is not None:
             for key in list(state):
                 if key != "__det" and key[0] == comp_oid:
-                    state[key] = "absent" if key[1] == "edges" else "clean"
+                    state[key] = "absent" if (key[1] == "edges" or key[1] in EXTRA_CACHE_READS) else "clean"
             return
         # ---- writes to primaries
         kind, info = self._classify_primary(ev)
